@@ -248,6 +248,121 @@ class LoopRule(ast.NodeTransformer):
         return new + [iff]
 
 
+class ForEachSpec:
+    """Fold invariant of `for X in ITER: B`, keyed by loop ordinal (for-loops counted separately).
+
+    inv(L, k, items) -> SymBool/bool : must hold before the k-th element is processed (k concrete,
+                                       0 <= k <= len(items)); L = locals() of the function
+    havoc            : optional {target text: callable(fresh) -> value}; targets assigned in B that are not
+                       listed are havoced with `fresh(name)`
+    """
+
+    def __init__(self, inv, havoc=None, only=None):
+        # only: optional predicate on (k, n) selecting the positions this work unit explores (the work
+        # units of one contract must cover 0..n between them; position n is the loop exit)
+        self.inv, self.havoc, self.only = inv, dict(havoc or {}), only
+
+
+class _ForEachCtx:
+    def __init__(self, specs, fresh):
+        self.specs, self.fresh = specs, fresh
+        self.exit_k = {}
+
+    def enter(self, i, L, items):
+        core.current().prove(f"for{i}:inv-entry", core._b(self.specs[i].inv(L, 0, items)))
+
+    def havoc(self, i, name):
+        h = self.specs[i].havoc.get(name)
+        return h(self.fresh) if h else self.fresh("havoc_" + name)
+
+    def pick(self, i, L, items):
+        """Arbitrary position k in 0..len(items): one engine fork per position (exhaustive)."""
+        eng = core.current()
+        n = len(items)
+        only = self.specs[i].only
+        ks = [k for k in range(n + 1) if only is None or only(k, n)]
+        if not ks:
+            raise core.PathAbort("no loop position selected for this work unit")
+        k = ks[eng.choice(len(ks), tag=f"foreach{i}")]
+        eng.assume(core._b(self.specs[i].inv(L, k, items)))
+        self.exit_k[i] = k
+        return k
+
+    def after(self, i, L, k, items):
+        core.current().prove(f"for{i}:inv-preserved", core._b(self.specs[i].inv(L, k + 1, items)),
+                             detail=f"element {k} of {len(items)}")
+        raise core.Cut()
+
+
+class ForEachRule(ast.NodeTransformer):
+    """for X in ITER: B   ==>
+         __it = list(ITER)
+         __fe.enter(i, locals(), __it)                 # assert Inv(0)
+         <assigned targets of B> = __fe.havoc(i, ...)  # havoc
+         __k = __fe.pick(i, locals(), __it)            # arbitrary k (exhaustive fork), assume Inv(k)
+         if __k < len(__it):
+             for X in (__it[__k],):                    # one real execution of B (continue = end of B)
+                 B
+             __fe.after(i, locals(), __k, __it)        # assert Inv(k+1); cut
+         # falls through with Inv(len)
+    The iterable must evaluate to a concrete finite sequence (only the data may be symbolic).
+    Loops whose ordinal has no registered spec are left untouched (they run as they are)."""
+
+    def __init__(self, specs):
+        self.ordinal = 0
+        self.specs = specs
+        self.applied = 0
+
+    def visit_For(self, node):
+        self.generic_visit(node)
+        i = self.ordinal
+        self.ordinal += 1
+        if i not in self.specs:
+            return node
+        self.applied += 1
+        targets = []
+        for n in ast.walk(ast.Module(body=node.body, type_ignores=[])):
+            if isinstance(n, ast.AugAssign):
+                targets.append(n.target)
+            elif isinstance(n, ast.Assign):
+                targets.extend(n.targets)
+            elif isinstance(n, (ast.While, ast.For, ast.Return, ast.Break, ast.Try, ast.With)):
+                raise core.Undecided("loop body outside the for-each-rule subset (nested loop / break / return)")
+        if node.orelse:
+            raise core.Undecided("for/else outside the for-each-rule subset")
+        seen, uniq = set(), []
+        for t in targets:
+            s = ast.unparse(t)
+            if s not in seen and isinstance(t, ast.Name):
+                seen.add(s)
+                uniq.append(t)
+            elif not isinstance(t, ast.Name):
+                raise core.Undecided(f"for-each rule: assignment to {s} (only local names can be havoced)")
+        it, k = f"__symx_it{i}", f"__symx_fk{i}"
+        pre = [f"{it} = list({ast.unparse(node.iter)})", f"__fe.enter({i}, locals(), {it})"]
+        for t in uniq:
+            pre.append(f"{t.id} = __fe.havoc({i}, {t.id!r})")
+        pre.append(f"{k} = __fe.pick({i}, locals(), {it})")
+        new = ast.parse("\n".join(pre)).body
+        one = ast.For(target=node.target, iter=ast.parse(f"({it}[{k}],)", mode="eval").body, body=list(node.body), orelse=[])
+        tail = ast.parse(f"__fe.after({i}, locals(), {k}, {it})").body
+        iff = ast.If(test=ast.parse(f"{k} < len({it})", mode="eval").body, body=[one] + tail, orelse=[])
+        return new + [iff]
+
+
+def rebuild_with_foreach(func, specs, fresh, extra_passes=(), n_for=None):
+    """Apply the for-each rule to the for-loops of func named in `specs` (ordinal -> ForEachSpec).
+    `n_for` (if given) is the number of for-loops the function is expected to contain; a mismatch,
+    or a registered ordinal that does not exist, is Undecided."""
+    rule = ForEachRule(specs)
+    ctx = _ForEachCtx(specs, fresh)
+    new = rebuild(func, list(extra_passes) + [rule], extra_globals={"__fe": ctx})
+    if rule.applied != len(specs) or (n_for is not None and rule.ordinal != n_for):
+        raise core.Undecided(f"{func.__qualname__}: {rule.ordinal} for-loops found ({rule.applied} matched), "
+                             f"{len(specs)} fold invariants registered for {n_for} expected loops")
+    return new, ctx
+
+
 def rebuild_with_loops(func, specs, fresh, extra_passes=()):
     """Apply the loop rule to every while loop of func; `specs` maps loop ordinal -> LoopSpec.
     A mismatch between the number of loops and the registered ordinals is Undecided."""
